@@ -50,28 +50,47 @@ example : rtlValue exCtx exEnv exExpr = 4 := by decide
 
 /-! ### Derived operators
 
-`abs`, `shift_left`, `shift_right`, `rotate_left`, `rotate_right`, `replicate` and `Mux` are not AST nodes:
+`abs`, `shift_left`, `shift_right`, `rotate_left`, `rotate_right`, `replicate`, `matches`, `Mux`, integer and
+stepped subscripts and `Array` indexing are not AST nodes:
 the methods rewrite them into primitive nodes when called. `mkDerived` is that rewrite (compared structurally
 with what the Python methods return on every run); `Spec.derived` is the Python-integer / bit-sequence meaning. -/
 
 /-- The nodes built for a derived operator are well formed, have the documented shape, and denote the
 documented exact result — for every operand expression, integer amount and environment. -/
-theorem derived_exact (ctx : Ctx) (env : Env) (hok : EnvOk ctx env) (op : DOp) (args : List Expr) (e : Expr)
-    (h : mkDerived ctx op args = some e) (hwf : ∀ a ∈ args, a.wf ctx = true) :
+theorem derived_exact (ctx : Ctx) (env : Env) (hok : EnvOk ctx env) (op : DOp) (hop : op ≠ .arrayIndex)
+    (args : List Expr) (e : Expr) (h : mkDerived ctx op args = some e) (hwf : ∀ a ∈ args, a.wf ctx = true) :
     e.wf ctx = true ∧
     derived op (args.map fun a => (shapeOf ctx a, denote ctx env a)) = some (shapeOf ctx e, denote ctx env e) :=
-  derived_build_spec ctx env hok op args e h hwf
+  derived_build_spec ctx env hok op hop args e h hwf
+
+/-- `Array(elems)[index]` (`ArrayProxy.as_value`) for an index value inside the part of the array an index of that
+width can reach: the selected element's exact value, in the unification of the reachable elements' shapes. For an
+index outside the array the Spec (and the property) say nothing. -/
+theorem array_exact (ctx : Ctx) (env : Env) (hok : EnvOk ctx env) (idx : Expr) (elems : List Expr)
+    (hidx : idx.wf ctx = true) (hel : ∀ e ∈ elems, e.wf ctx = true) (h0 : 0 ≤ denote ctx env idx)
+    (hin : (denote ctx env idx).toNat < (elems.take (2 ^ widthOf ctx idx)).length) :
+    (mkArray ctx idx elems).wf ctx = true ∧
+    derived .arrayIndex ((idx :: elems).map fun a => (shapeOf ctx a, denote ctx env a)) =
+      some (shapeOf ctx (mkArray ctx idx elems), denote ctx env (mkArray ctx idx elems)) :=
+  array_spec ctx env hok idx elems hidx hel h0 hin
 
 /-- … and a simulated circuit computes exactly that. -/
-theorem derived_rtl_exact (ctx : Ctx) (env : Env) (hok : EnvOk ctx env) (op : DOp) (args : List Expr) (e : Expr)
-    (h : mkDerived ctx op args = some e) (hwf : ∀ a ∈ args, a.wf ctx = true) :
+theorem derived_rtl_exact (ctx : Ctx) (env : Env) (hok : EnvOk ctx env) (op : DOp) (hop : op ≠ .arrayIndex)
+    (args : List Expr) (e : Expr) (h : mkDerived ctx op args = some e) (hwf : ∀ a ∈ args, a.wf ctx = true) :
     derived op (args.map fun a => (shapeOf ctx a, denote ctx env a)) = some (shapeOf ctx e, rtlValue ctx env e) := by
-  obtain ⟨h1, h2⟩ := derived_exact ctx env hok op args e h hwf
+  obtain ⟨h1, h2⟩ := derived_exact ctx env hok op hop args e h hwf
   rw [rtl_exact ctx env hok e h1]; exact h2
 
 /-- non-vacuity: `(b - 1).rotate_left(-5)` on a signed 3-bit `b = -4`: the 4-bit pattern 1011 rotated left by 3 -/
 example : (mkDerived exCtx (.rotateLeft (-5)) [.op2 .sub (.sig 1) (.const 1 ⟨1, false⟩)]).map
     (fun e => (e.wf exCtx, shapeOf exCtx e, denote exCtx exEnv e)) = some (true, ⟨4, false⟩, 13) := by decide
+/-- `a[3:-1:-2]` written with normalised indices (3, -1, -2): bits 3 and 1 of `a = 13 = 0b1101` -/
+example : (mkDerived exCtx (.sliceStep 3 (-1) (-2)) [.sig 0]).map
+    (fun e => (e.wf exCtx, shapeOf exCtx e, denote exCtx exEnv e)) = some (true, ⟨2, false⟩, 1) := by decide
+/-- `Array([a, b, a + b])[b[0:2]]` with `b = -4`: index 0 -/
+example : (shapeOf exCtx (mkArray exCtx (.slice (.sig 1) 0 2) [.sig 0, .sig 1, .op2 .add (.sig 0) (.sig 1)]),
+    denote exCtx exEnv (mkArray exCtx (.slice (.sig 1) 0 2) [.sig 0, .sig 1, .op2 .add (.sig 0) (.sig 1)])) = (⟨6, true⟩, 13) := by
+  decide
 example : (mkDerived exCtx .abs [.sig 1]).map (fun e => (shapeOf exCtx e, denote exCtx exEnv e)) = some (⟨3, false⟩, 4) := by
   decide
 
